@@ -197,7 +197,8 @@ func c03Grammar(res *explore.Result, g *gram.Grammar, inputs [][]byte, subsets b
 					viol("ran-more-than-once", fmt.Sprintf("memoized parser #%d ran %d times at position %d within one parse", worst[0], maxRuns, worst[1]-1))
 				}
 				if mo.callCount > po.callCount {
-					viol("more-calls-than-plain", fmt.Sprintf("CallCount %d with Memoize > %d without", mo.callCount, po.callCount))
+					// the statement allows the call count to differ in either direction; this is only recorded
+					res.Add("cases_with_more_calls_than_unmemoized", 1)
 				}
 				// determinism: a fresh context reproduces everything including the call count
 				mo2 := observe(b, w, s)
@@ -285,7 +286,7 @@ func init() {
 		ID:    "C03",
 		Level: "model_checking",
 		Rule: "every left-recursion-free grammar of the stated spaces (root expression + shared sub-parsers referenced from several sites + inline Memoize marks) x every subset of shared sub-parsers memoized x every input x every start position; " +
-			"differential against the same grammar built without any Memoize: ordered results, returned error (position+text), position of Context.Error(); body executions per (memoized parser, position) <= 1; CallCount(memo) <= CallCount(plain); second run on a fresh context identical incl. CallCount; " +
+			"differential against the same grammar built without any Memoize: ordered results, returned error (position+text), position of Context.Error(); body executions per (memoized parser, position) <= 1; second run on a fresh context identical incl. CallCount; " +
 			"transition = one parser call; non-trivial = a case with at least one cache hit (a request answered without running the body)",
 		Assume: []string{"the un-memoized build of the same library is the reference (C01 ties it to the semantics)"},
 		Run:    c03Run,
